@@ -523,6 +523,93 @@ def suite_gen(which: set[str]):
                                                 "model": name, "impl": str(left)}
                 finally:
                     _shutil.rmtree(base, ignore_errors=True)
+            if "numbatch" in which:
+                # the nested function of `bb fps-from-smiles`, compiled from the very source text of the imported module
+                import ast as _ast
+                import math as _math
+                import bblean.cli as CLIm
+                tree_ = _ast.parse(open(CLIm.__file__).read())
+                outer = [n for n in tree_.body if isinstance(n, _ast.FunctionDef) and n.name == "_fps_from_smiles"]
+                inner = [n for n in (outer[0].body if outer else []) if isinstance(n, _ast.FunctionDef) and n.name == "parse_num_per_batch"]
+                if not inner:
+                    res.disagreement = {"what": "parse_num_per_batch not found inside cli._fps_from_smiles", "model": "-", "impl": "-"}
+                else:
+                    ns: dict = {"math": _math}
+                    exec(compile(_ast.Module(body=[inner[0]], type_ignores=[]), CLIm.__file__, "exec"), ns)
+                    fn_ = ns["parse_num_per_batch"]
+                    for _ in range(N):
+                        tot = rng.choice([0, 1, 5, 17, 26, 99, 100, 101, 3050, rng.randint(0, 10 ** 4), rng.randint(0, 2 ** 52), 2 ** 53 - 1,
+                                          10 ** 15 + rng.randint(0, 9)])
+                        pr = rng.choice([None, 1, 2, 9, 10, 99, 100, rng.randint(1, 2000), rng.randint(1, 10 ** 9)])
+                        mx = rng.choice([None, None, 1, 2, 7, 1000, rng.randint(1, 10 ** 6)])
+                        if rng.random() < 0.03:
+                            pr = 0
+                        compare("parse_num_per_batch", [tot, pr, mx], call_real(fn_, tot, pr, mx))
+            if "reader" in which:
+                # _memory.get_peak_memory_gib for real (real files): absent file, complete texts (reprs of floats), proper prefixes
+                # of such texts, the empty file; effects recorded at the module's own `open`
+                import builtins as _bi
+                import shutil as _shutil
+                import tempfile as _tmp
+                from pathlib import Path as _P
+                base = _P(_tmp.mkdtemp(prefix="bbverif-rd-", dir=os.environ.get("VERIF_SCRATCH", "/var/tmp")))
+                try:
+                    for i in range(max(60, N)):
+                        ddir = base / f"r{i}"
+                        ddir.mkdir()
+                        x = rng.choice([rng.random(), rng.uniform(0, 64), rng.randint(0, 2 ** 34) / 2 ** 30, rng.uniform(1e-7, 1e-3),
+                                        rng.uniform(1e15, 1e22), rng.randint(0, 10 ** 6) * MEM._BYTES_TO_GIB])
+                        full = repr(x) + "\n"
+                        kind = rng.choice(["absent", "full", "full", "prefix", "prefix", "empty", "odd"])
+                        text = {"absent": None, "full": full, "prefix": full[:rng.randint(0, len(full) - 1)], "empty": "",
+                                "odd": rng.choice([".", "e5", "1e", "+.5e-3\n", "5.\n", "-0.0\n", "\n\n", "1e+"])}[kind]
+                        if text is not None:
+                            (ddir / "max-rss.txt").write_text(text)
+                        trace: list = []
+
+                        class FProxy:
+                            def __init__(self, f, p_):
+                                self.f, self.p = f, p_
+
+                            def __enter__(self):
+                                self.f.__enter__()
+                                return self
+
+                            def __exit__(self, *a):
+                                trace.append(("close", str(self.p)))
+                                return self.f.__exit__(*a)
+
+                            def read(self):
+                                trace.append(("read", str(self.p)))
+                                return self.f.read()
+
+                        def open_(p_, mode="r", **k):
+                            trace.append(("open", str(p_), mode))
+                            return FProxy(_bi.open(p_, mode=mode, **k), p_)
+                        had = "open" in MEM.__dict__
+                        MEM.open = open_
+                        try:
+                            try:
+                                val = MEM.get_peak_memory_gib(ddir)
+                            except ValueError:
+                                val = "ERR:ValueError"
+                        finally:
+                            if not had:
+                                del MEM.__dict__["open"]
+                        if isinstance(val, float) and (val != val or val in (float("inf"), float("-inf"))):
+                            continue
+                        flat_ = tuple(x_ for t_ in trace for x_ in t_)
+                        m = d.cmd("GEN get_peak_memory_gib " + " ".join([pv(str(ddir)), pv(text if text is not None else ""), pv(text is not None)]))
+                        want = " ".join(pv(v_) for v_ in flat_) + (" " if flat_ else "") + ("err:ValueError" if val == "ERR:ValueError" else pv(val))
+                        res.evaluations += 1
+                        cnt["get_peak_memory_gib:" + kind] = cnt.get("get_peak_memory_gib:" + kind, 0) + 1
+                        if m != want and res.disagreement is None:
+                            res.disagreement = {"what": "generated get_peak_memory_gib differs from the Python function", "text": text, "model": m[:300], "impl": want[:300]}
+                        # a complete text reads back as the value written
+                        if kind == "full" and val != x and res.disagreement is None:
+                            res.disagreement = {"what": "a complete peak file does not read back as the value written", "model": repr(x), "impl": repr(val)}
+                finally:
+                    _shutil.rmtree(base, ignore_errors=True)
             if "monitor" in which:
                 # the daemon's loop, run for real (real files) with a scripted process tree, clock and sleep; every iteration's
                 # file effects, recorded at the module's own `open` / `os` / `time` names, against the generated loop body
